@@ -124,6 +124,13 @@ func c11Ops() []concOp {
 			_ = ctx.SetFunc("tw", func(x int) int { y(); return 2 * x })
 			return digestFrame(q.Eval("n", qframe.Expr("+", qframe.Expr("tw", types.ColumnName("i")), types.ColumnName("k")), eval.EvalContext(ctx)))
 		}},
+		{"Eval(user 2-arg fn, own ctx)", true, func(q qframe.QFrame, y func()) string {
+			ctx := eval.NewDefaultCtx()
+			_ = ctx.SetFunc("mix", func(a, b int) int { y(); return 3*a - b })
+			_ = ctx.SetFunc("hyp", func(a, b float64) float64 { return a*a + b*b })
+			return digestFrame(q.Eval("n", qframe.Expr("mix", types.ColumnName("i"), types.ColumnName("k")), eval.EvalContext(ctx)).
+				Eval("m", qframe.Expr("hyp", types.ColumnName("f"), 2.0), eval.EvalContext(ctx)))
+		}},
 		// callback-free operations (race pass; in the scheduler they only have start/end points)
 		{"Filter(like)", false, func(q qframe.QFrame, y func()) string {
 			return digestFrame(q.Filter(qframe.Filter{Column: "s", Comparator: "like", Arg: "%a%"}))
@@ -198,7 +205,8 @@ func c11Ops() []concOp {
 	return ops
 }
 
-var c11Relations = []string{"same", "slice", "sorted", "copied"}
+// "derived": BOTH operations run on one frame that was itself produced by adding columns
+var c11Relations = []string{"same", "slice", "sorted", "copied", "derived"}
 
 func c11Base() qframe.QFrame {
 	return model.Build(model.Frame{N: 4, Cols: []model.Col{
@@ -216,10 +224,25 @@ func related(base qframe.QFrame, rel string) qframe.QFrame {
 		return base.Slice(1, base.Len())
 	case "sorted":
 		return base.Sort(qframe.Order{Column: "k"}, qframe.Order{Column: "i"})
-	case "copied":
+	case "copied", "derived":
 		return base.Copy("c2", "i")
 	}
 	return base
+}
+
+// firstFrame is the frame the first operation runs on.
+func firstFrame(base qframe.QFrame, rel string) qframe.QFrame {
+	if rel == "derived" {
+		return c11Derived(base)
+	}
+	return base
+}
+
+var c11derived map[string]qframe.QFrame
+
+// c11Derived: one shared frame per process, derived from base by adding columns twice
+func c11Derived(base qframe.QFrame) qframe.QFrame {
+	return base.Copy("c2", "i").Apply(qframe.Instruction{Fn: 2.5, DstCol: "c3"})
 }
 
 type concCase struct {
@@ -238,9 +261,10 @@ func runSchedCase(c concCase) *core.Failure {
 	base := c11Base()
 	frames := make([]qframe.QFrame, len(c.Ops))
 	want := make([]string, len(c.Ops))
+	shared := firstFrame(base, c.Rel)
 	for i, oi := range c.Ops {
-		frames[i] = base
-		if i > 0 {
+		frames[i] = shared
+		if i > 0 && c.Rel != "derived" {
 			frames[i] = related(base, c.Rel)
 		}
 		want[i] = ops[oi].run(frames[i], noYield)
@@ -295,9 +319,10 @@ func c11Run(ctx *core.Ctx) {
 		base := c11Base()
 		frames := make([]qframe.QFrame, len(opIdx))
 		want := make([]string, len(opIdx))
+		shared := firstFrame(base, rel)
 		for i, oi := range opIdx {
-			frames[i] = base
-			if i > 0 {
+			frames[i] = shared
+			if i > 0 && rel != "derived" {
 				frames[i] = related(base, rel)
 			}
 			want[i] = ops[oi].run(frames[i], noYield)
@@ -420,15 +445,18 @@ func RacePassMain(tier string, only string) int {
 				if only != "" && only != key {
 					continue
 				}
-				fb := related(base, rel)
-				wa, wb := ops[a].run(base, noYield), ops[b].run(fb, noYield)
+				fa, fb := firstFrame(base, rel), related(base, rel)
+				if rel == "derived" {
+					fb = fa
+				}
+				wa, wb := ops[a].run(fa, noYield), ops[b].run(fb, noYield)
 				fmt.Fprintf(os.Stderr, "\nPAIR-BEGIN %s\n", key)
 				for r := 0; r < reps; r++ {
 					var ga, gb string
 					start := make(chan struct{})
 					var wg sync.WaitGroup
 					wg.Add(2)
-					go func() { defer wg.Done(); <-start; ga = ops[a].run(base, noYield) }()
+					go func() { defer wg.Done(); <-start; ga = ops[a].run(fa, noYield) }()
 					go func() { defer wg.Done(); <-start; gb = ops[b].run(fb, noYield) }()
 					close(start)
 					wg.Wait()
@@ -593,8 +621,8 @@ func init() {
 		},
 		Level: "model_checking",
 		Rule: "(a) controlled cooperative scheduler: logical threads each run one operation on the same frame or on a frame sharing storage with it (slice, sorted copy, column copy); scheduling points are operation start, operation end and EVERY user callback invocation (filter predicate, apply fn0/fn1/fn2, aggregation function, eval function; the callback yields before it reads its arguments). " +
-			"All interleavings (no preemption bound) for every unordered pair and self-pair of 11 callback-bearing operations x 4 sharing relations and for each callback operation against each of 23 callback-free operations; three threads with preemption bound 2 (thorough 3). Oracle: every operation returns what it returns alone, the shared frame is unchanged, no panic; replay of a choice prefix must find the recorded number of enabled threads. states = schedules executed, transitions = scheduling points. " +
-			"(b) free-running pass in a -race build: every unordered pair and self-pair of all 34 operations x 4 relations released together by a barrier, 3 (10) repetitions, results compared with the sequential ones; a race report is attributed by stderr markers and re-run alone 5 times before it is believed. Non-trivial = distinct (operation tuple, relation) explored by the scheduler.",
+			"All interleavings (no preemption bound) for every unordered pair and self-pair of 12 callback-bearing operations x 5 sharing relations (same frame, slice, sorted copy, column copy, both on one frame that was itself derived by adding columns) and for each callback operation against each of 23 callback-free operations; three threads with preemption bound 2 (thorough 3). Oracle: every operation returns what it returns alone, the shared frame is unchanged, no panic; replay of a choice prefix must find the recorded number of enabled threads. states = schedules executed, transitions = scheduling points. " +
+			"(b) free-running pass in a -race build: every unordered pair and self-pair of all 35 operations x 5 relations released together by a barrier, 3 (10) repetitions, results compared with the sequential ones; a race report is attributed by stderr markers and re-run alone 5 times before it is believed. Non-trivial = distinct (operation tuple, relation) explored by the scheduler.",
 		Assumptions: []string{
 			"qframe contains no synchronisation operation, so the scheduler can only regain control at operation boundaries and user callbacks; memory-access-level interleavings are covered by the race pass: two synchronisation-free operations forked from a barrier have no happens-before path between them in any schedule, so the Go race detector reports a conflicting access pair whichever schedule runs (limits: shadow memory keeps 4 accesses per word)",
 			"a data-race-free program is sequentially consistent (Go memory model); with no operation writing memory another reads, each returns its sequential result",
